@@ -1,7 +1,8 @@
 ----------------------------- MODULE HostileTrace ---------------------------
 (* C08 contract on sessions fed mutated / random octets (virtual socket around the real server):                      *)
 (*   {"ev": [events as in ServerTrace], "before": memory, "after": memory, "others": b, "finished": b,                 *)
-(*    "wexp": [memory after a write whose complete message the mutated octets still contain], "octets": all input octets}  *)
+(*    "wexp": [memory after a write whose complete message the mutated octets still contain], "octets": all input octets,  *)
+(*    "strict": the specification knows that the input holds no write request at all (Hostile!NoWriteAtAll): nothing may change} *)
 (* For any octet sequence the server finishes, replies with well-framed frames or closes, changes a tag only through   *)
 (* an acknowledged write, and keeps serving other sessions.                                                            *)
 EXTENDS CIPWire, Json, IOUtils, TLCExt, TLC
@@ -31,6 +32,7 @@ Verdict == (l <= Len(Ev) /\ ~ENABLED TStep) => PrintT(ToJson([tid |-> t, at |-> 
 \* tags are fixed-length arrays: whatever happens, no tag gains or loses elements and every element stays representable
 SameShape(a, b) == Len(a) = Len(b) /\ \A i \in 1 .. Len(a) : Len(a[i]) = Len(b[i]) /\ \A k \in 1 .. Len(a[i]) : Len(a[i][k]) = Len(b[i][k])
 FinalOK == /\ Traces[t].finished /\ isclosed /\ Traces[t].others /\ SameShape(Traces[t].after, Traces[t].before)
+           /\ (Traces[t].strict => Traces[t].after = Traces[t].before)
            /\ (Traces[t].after # Traces[t].before => (acked \/ (\E k \in 1 .. Len(Traces[t].wexp) : Traces[t].after = Traces[t].wexp[k])
                                                     \* PERMISSIVE(C08): a complete write that was carried out although its envelope was damaged
                                                     \/ WrittenFromInput(Traces[t].before, Traces[t].after, Traces[t].octets)))
